@@ -1136,6 +1136,29 @@ def check_C03(chk, binp):
             nt, nb = rnd.choice([(4, 256), (2, 64), (8, 1024)])
             deepch.append('search\t%d\t%d\t%d\t-\t1\t%d\t%d\t-\t%s@%d|%s@%d' % (rnd.randrange(1 << 30), rnd.randrange(1 << 50), d1, nt, nb, f, d1, p2, rnd.choice([1, 2])))
     deepch = deepch[:80 if quick else 1500]
+    # ONE ply below as well (the position after a reply the first search has refuted, typically left with a bound): all sampled
+    # successors, every second-search depth 1..3
+    for (f, m) in mids:
+        men = sum(c.isalpha() for c in f.split(' ')[0])
+        d1 = rnd.choice([3, 4]) if men > 12 else rnd.choice([3, 4, 5])
+        nt, nb = rnd.choice([(4, 256), (2, 64), (8, 1024)])
+        deepch.append('search\t%d\t%d\t%d\t-\t1\t%d\t%d\t-\t%s@%d|%s@%d' % (rnd.randrange(1 << 30), rnd.randrange(1 << 50), d1, nt, nb, f, d1, m, rnd.choice([1, 2, 3])))
+    # ... and every successor that gives CHECK, from a larger set of roots (a position in check has many pseudo-legal moves
+    # that are illegal; an entry that stores an unverified move shows there first)
+    croots = list(dict.fromkeys(roots + [f for f in G.corpus() if len(f.split(' ')) == 6][:40] + rnd.sample(sel, min(len(sel), 40 if quick else 400))))
+    cg = run_cases(MODEL, ['specgen\t' + f for f in croots], 'C03-chk-a')
+    csucc = []
+    for f, r in zip(croots, cg):
+        for x in (r or '').split(';'):
+            if '=' in x:
+                csucc.append((f, x.split('=', 1)[1]))
+    ck = run_cases(binp, ['attacks\t' + m for (_, m) in csucc], 'C03-chk-b', shards=8)
+    checking = [(f, m) for (f, m), r in zip(csucc, ck) if r and r.split(',')[-1] == '1']
+    rnd.shuffle(checking)
+    for (f, m) in checking[:120 if quick else 3000]:
+        men = sum(c.isalpha() for c in f.split(' ')[0])
+        d1 = 3 if men > 12 else rnd.choice([3, 4])
+        deepch.append('search\t%d\t%d\t%d\t-\t1\t4\t256\t-\t%s@%d|%s@%d' % (rnd.randrange(1 << 30), rnd.randrange(1 << 50), d1, f, d1, m, rnd.choice([1, 2, 3])))
     # and, from three rich roots, many second positions after a depth-5 first search (second search: one iteration)
     for (f, m), r in zip(mids, g2):
         if f not in roots[:3]:
@@ -1234,7 +1257,9 @@ def check_C04(chk, binp):
         f = rnd.choice(npos)
         r = rnd.choice([0, 1, 1, 2, 2, 3]); base = rnd.choice([0, 0, 5, 33, 46])
         mdv = base + r + rnd.choice([0, 1]); cdv = mdv - r
-        ce = rnd.choice([0, 0, 1, 7, 15, 16, 16, 17, 40])
+        # extensions used: never more than the cap (16) and never more than the current depth (both invariants of every
+        # call that a search from the root can make)
+        ce = min(rnd.choice([0, 0, 1, 7, 15, 16, 16, 16]), cdv)
         if rnd.random() < 0.6:
             a, b = -11000, 11000
         else:
@@ -1501,6 +1526,33 @@ def check_C06(chk, binp):
         if ps and any(abs(ev) >= 10000 for ev, _ in ps[0]['best']):
             unsound.append((len(cases), 'terminal evaluation claimed on material that cannot mate'))
             cases.append(c); impl.append(out); meta.append((c.split('\t')[-1], None, {}, 0, 0))
+    # VOLUME: thousands of sparse random positions searched for one or two iterations (real code only, fresh memory, one worker):
+    # a claimed mate carries its distance in the score (11000 - 100 * plies); the solver refutes it when there is no forced
+    # mate within that distance plus two plies (a false claim produced at the horizon - quiescence - shows here)
+    sparse = []
+    for _ in range(60000 if quick else 400000):
+        nmen = rnd.randrange(2, 9)
+        sparse += G.small_family(rnd, ''.join(rnd.choice('PNBRQpnbrqPpRr') for _ in range(nmen)), 1)
+    sparse = G.filter_legal(list(dict.fromkeys(sparse)), 'C06-sparse')
+    spc = ['search\t%d\t%d\t%d\t-\t1\t2\t64\t-\t%s' % (rnd.randrange(1 << 30), rnd.randrange(1 << 50), rnd.choice([1, 1, 2]), f) for f in sparse]
+    spi = run_cases(binp, spc, 'C06-sparse-impl', shards=16, timeout=1200)
+    spclaims = []
+    for c, f, o in zip(spc, sparse, spi):
+        ps = parse_search(o)
+        if ps and ps[0]['best']:
+            ev, line = ps[0]['best'][-1]
+            if ev >= 10000:
+                spclaims.append((c, f, ev, (11000 - ev) // 100, o))
+    # (refuting a claim is expensive for the solver: the short claims first, a bounded number of them, two plies of slack)
+    spq = sorted([x for x in spclaims if x[3] <= 3], key=lambda x: x[3])[:1200 if quick else 8000]
+    spr = run_cases(MODEL, ['specwin\t%s\t%d' % (f, p + 2) for (c, f, ev, p, o) in spq], 'C06-sparse-solve', timeout=900)
+    spbad = [(c, f, ev, p, o) for (c, f, ev, p, o), r in zip(spq, spr) if r == 'none']
+    chk.streams.append({'name': 'volume: sparse random positions at depth 1..2, mate claims checked by the solver at the claimed distance + 2 plies', 'against': 'forced-mate solver over the extracted rules', 'cases': len(spc), 'disagreements': len(spbad)})
+    chk.evaluations += len(spc)
+    chk.extra['sparse_mate_claims'] = len(spclaims)
+    for c, f, ev, p, o in spbad[:3]:
+        unsound.append((len(cases), 'mate in %d plies claimed (score %d) but the side to move has no forced mate within %d plies' % (p, ev, p + 2)))
+        cases.append(c); impl.append(o); meta.append((f, None, {}, 0, 1))
     chk.streams.append({'name': 'soundness (exact): no terminal evaluation on K v K, K+minor v K', 'against': 'insufficient material (no checkmate position exists)', 'cases': len(nmc), 'disagreements': sum(1 for u in unsound if 'cannot mate' in u[1])})
     # the memoised solver of the driver against the extracted GameValue.win (the Coq definition of a forced mate), 3 plies
     gsel = [f for f, n, k in wins[:25]] + nomate[:25]
